@@ -223,6 +223,8 @@ class C03(core.Check):
 
     # ------------------------------------------------------------ harness-side renderer (for snippets)
     def render(self, b, q='"', ind=0):
+        if b.get("type") is None:
+            return []
         pad = "  " * ind
         out = [pad + b["type"].upper()]
         for k, item in b["items"]:
@@ -270,7 +272,8 @@ class C03(core.Check):
                 out += self.blocks_of(item[1], path + ((k, None),))
             elif item[0] == "blocks":
                 for i, c in enumerate(item[1]):
-                    out += self.blocks_of(c, path + ((k, i),))
+                    if c.get("type") is not None:
+                        out += self.blocks_of(c, path + ((k, i),))
         return out
 
     def resolve(self, root_s, root_r, path):
@@ -319,7 +322,7 @@ class C03(core.Check):
         shadow = json.loads(json.dumps(model))
         steps = []
         weights = {"set": 6, "del": 2, "add_child": 3, "remove_child": 1, "reorder": 1, "singleton": 1, "snippet": 2, "update": 2,
-                   "hidden": 1, "read_missing": 2, "repair": 2, "share": 1, "create_child": 1, "update_nested": 2, "print": 6}
+                   "hidden": 1, "read_missing": 2, "repair": 2, "share": 1, "create_child": 1, "update_nested": 2, "empty_child": 1, "print": 6}
         for x in list(weights):
             if x != "print" and k.random() < 0.2:
                 weights[x] = 0
@@ -366,6 +369,22 @@ class C03(core.Check):
                     kids = [child] + ([self.gen_block(w, ctype, 2)] if r.random() < 0.4 else [])
                     self.set_item(blk, key, ["blocks", kids])
                     steps.append({"op": "snippet", "path": path, "key": key, "blocks": json.loads(json.dumps(kids)), "quote": r.choice(['"', "'"])})
+            elif name == "empty_child":
+                # an empty, untyped dict ends up among the child objects (update() pads a list with {} when a patch
+                # reaches past its end; a user may insert one and forget to fill it in): it has no representation
+                ch = [c for c in self.vocab.children.get(typ, []) if c[2] and not (c[1] == "symbol" and typ != "map")]
+                if not ch:
+                    continue
+                key, ctype, _ = r.choice(ch)
+                cur = self.get_item(blk, key)
+                if cur is not None and cur[0] != "blocks":
+                    continue
+                lst = cur[1] if cur else []
+                how = r.choice(["insert_plain", "insert_ci", "update_padding"])
+                pos = len(lst) if how == "update_padding" else r.randint(0, len(lst))
+                lst.insert(pos, {"type": None, "items": []})
+                self.set_item(blk, key, ["blocks", lst])
+                steps.append({"op": "empty_child", "path": path, "key": key, "pos": pos, "how": how})
             elif name == "create_child":
                 ch = [c for c in self.vocab.children.get(typ, []) if not (c[1] == "symbol" and typ != "map")]
                 if not ch:
@@ -597,6 +616,27 @@ class C03(core.Check):
                         continue
                     cur[1].reverse()
                     r[key].reverse()
+                elif op == "empty_child":
+                    cur = self.get_item(s, lk)
+                    if cur is not None and cur[0] != "blocks":
+                        continue
+                    lst = cur[1] if cur else []
+                    how = step["how"]
+                    if s.get("nofactory") and key not in r:
+                        r[key] = []
+                    if how == "update_padding":
+                        # a patch that speaks about the item AFTER the last one: update() fills the gap with {}
+                        n = len(r[key])
+                        mf.update(r, {lk: [None] * (n + 1) + [None]})
+                        if len(r[key]) <= n:
+                            continue  # this update() does not pad: nothing to model
+                        pos = n
+                        del r[key][n + 1:]
+                    else:
+                        pos = min(step["pos"], len(lst))
+                        r[key].insert(pos, {} if how == "insert_plain" else self.CI(self.CI))
+                    lst.insert(pos, {"type": None, "items": []})
+                    self.set_item(s, lk, ["blocks", lst])
                 elif op == "create_child":
                     cur = self.get_item(s, lk)
                     if cur is not None and cur[0] != ("blocks" if step["is_list"] else "block"):
